@@ -234,6 +234,9 @@ var c04Templates = []struct {
 	{"x := 0\nfor i := 0; i < %d; i++ { m := {\"a\": i}; m[\"a\"] += 1; x = m[\"a\"] }\nx", false},
 	{"x := 0\nfor x < %d { x++; if x %% 2 == 0 { continue }; if x > 100000 { break } }\nx", false},
 	{"x := 0\nfor { x++; if x >= %d { break } }\nx", false},
+	{"x := 0\nfor i := 0; i < %d; i++ { for x; x > 5; x++ { } }\nx", false},
+	{"x := 0\nfor i := 0; i < %d; i++ { x += try(func() { for _, v := range [1, 2, 3] { error(\"boom\") } }, 1) }\nx", false},
+	{"x := 0\nfor i := 0; i < %d; i++ { x += try(func() { y := [1, [2, error(\"boom\")]] }, 1) }\nx", false},
 	{"x := 0\nfor i := 0; i < %d; i++ { x = 1 + if i >= 0 { continue } else { 2 } }\nx", true},
 	{"x := 0\nfor i := 0; i < %d; i++ { y := [1, 2, if i >= 0 { continue }] }\nx", true},
 	{"x := 0\nfor i := 0; i < %d; i++ { print(i, if i >= 0 { continue }) }\nx", true},
